@@ -363,6 +363,16 @@ func TestVerif_C28(t *testing.T) {
 			continue
 		}
 		probes("accept", as.NodeId, as.Timestamp, atx, pool)
+		// a cancellation of the same pledge, at the same instant (it would be valid in place of the acceptance): the
+		// kernel snapshot rules do not look at its signature
+		ctx := common.NewTransactionV5(common.XINAssetId)
+		ctx.AddInput(ptx.PayloadHash(), 0)
+		fee := common.KernelNodePledgeAmount.Div(100)
+		ctx.Outputs = append(ctx.Outputs, &common.Output{Type: common.OutputTypeNodeCancel, Amount: fee, Keys: []*crypto.Key{}})
+		ctx.AddOutputWithType(common.OutputTypeScript, []*common.Address{&cand.Funder}, common.NewThresholdScript(1), common.KernelNodePledgeAmount.Sub(fee), verifgen.Seed64(fmt.Sprint("c28-cancel", r.Seed, c)))
+		ctx.Extra = append(cand.Extra(), cand.Funder.PrivateViewKey[:]...)
+		ctx.References = []crypto.Hash{chainOps[len(chainOps)-1].tx.PayloadHash()}
+		probes("cancel", f.net.NodeIds[1+rng.Intn(len(f.net.NodeIds)-1)], as.Timestamp, ctx.AsVersioned(), pool)
 		prebuilt = as
 		finalizeOp("node-accept", as.NodeId, atx, as.Timestamp)
 	}
